@@ -391,7 +391,8 @@ func worker(r *ev.Run, byName map[string]Scenario, all []Scenario) {
 		cfg.Deadline = time.UnixMilli(dl)
 	}
 	if cfg.MaxExec > 0 {
-		cfg.MaxExec = cfg.MaxExec/int64(cnt) + 1
+		// shards are uneven: allow each worker a quarter of the scenario's cap
+		cfg.MaxExec = cfg.MaxExec/4 + 1
 	}
 	st := vsched.Explore(cfg, s.Body)
 	b, _ := json.Marshal(workerResult{Stats: st})
